@@ -11,6 +11,8 @@ import GIV.Lemmas.DiffScript
 import GIV.Lemmas.DiffLoop
 import GIV.Lemmas.DiffWF
 import GIV.Lemmas.DiffRender
+import GIV.Lemmas.DiffTgs
+import GIV.Lemmas.DiffParse
 
 namespace GIV.C08
 open GIV GIV.Diff
@@ -18,6 +20,27 @@ open GIV GIV.Diff
 /-- The tags and the context size the property talks about are the ones in the source. -/
 theorem facts_pinned : Gen.Diff.C = 3 ∧ Gen.Diff.tagCtx = 32 ∧ Gen.Diff.tagCtxClose = 32 ∧ Gen.Diff.tagCtxOpen = 32 ∧
     Gen.Diff.tagDel = 45 ∧ Gen.Diff.tagIns = 43 := by decide
+
+/-- The deciding expressions of the loop, as read from the source, say what the proofs assume:
+a match is skipped iff it lies before `done.x`; a chunk continues iff we are not at the end of both
+files and the common run is shorter than 3 lines (6 when the chunk already has lines); a closed
+chunk gets `min(run, 3)` trailing context lines; the loop ends iff the run reaches the end of both
+files; a new chunk starts 3 lines before the end of the run; a start line is printed 1-based
+exactly when its count is positive. -/
+theorem conditions_pinned :
+    (∀ mx my dx dy : Nat, Gen.Diff.skipCond mx my dx dy = true ↔ mx < dx) ∧
+    (∀ sx sy w lx ly lc : Nat, Gen.Diff.contCond ((sx + w : Nat) : Int) ((sy + w : Nat) : Int) sx sy lx ly lc = true ↔
+      ((sx + w < lx ∨ sy + w < ly) ∧ (w < 3 ∨ (0 < lc ∧ w < 6)))) ∧
+    (∀ lc : Nat, Gen.Diff.closeCond lc = true ↔ 0 < lc) ∧
+    (∀ sx sy w : Nat, Gen.Diff.closeN ((sx + w : Nat) : Int) ((sy + w : Nat) : Int) sx sy = ((min w 3 : Nat) : Int)) ∧
+    (∀ ex ey lx ly : Nat, Gen.Diff.eofCond ex ey lx ly = true ↔ (lx ≤ ex ∧ ly ≤ ey)) ∧
+    (∀ ex ey : Nat, 3 ≤ ex → Gen.Diff.newChunkX ex ey = ((ex - 3 : Nat) : Int)) ∧
+    (∀ ex ey : Nat, 3 ≤ ey → Gen.Diff.newChunkY ex ey = ((ey - 3 : Nat) : Int)) ∧
+    (∀ cx cy : Nat, Gen.Diff.hdrIncX cx cy = true ↔ 0 < cx) ∧ (∀ cx cy : Nat, Gen.Diff.hdrIncY cx cy = true ↔ 0 < cy) :=
+  ⟨skipCond_iff, contCond_iff, closeCond_iff, closeN_eq, eofCond_iff, newChunkX_eq, newChunkY_eq, hdrIncX_iff, hdrIncY_iff⟩
+
+example : Gen.Diff.contCond 5 5 3 3 9 9 0 = true ∧ Gen.Diff.contCond 6 6 3 3 9 9 0 = false ∧
+    Gen.Diff.contCond 6 6 3 3 9 9 1 = true ∧ Gen.Diff.contCond 9 9 8 8 9 9 1 = false := by decide
 
 /-! ### texts and lines -/
 
@@ -73,56 +96,191 @@ theorem diff_header (o n : Bytes) : headerBytes o n =
 example : headerBytes [97] [98] = [100, 105, 102, 102, 32, 97, 32, 98, 10, 45, 45, 45, 32, 97, 10, 43, 43, 43, 32, 98, 10] := by
   decide
 
-/-! ### the hunks, given a correct match sequence -/
+/-! ### the match sequence -/
 
 section
 set_option linter.unusedSectionVars false
 variable {α : Type} [DecidableEq α]
 
-/-- What the hunk loop needs from `tgs`: the sequence is `(0,0)`, then anchors (equal lines that
-are unique in `x` and in `y`), strictly increasing in both coordinates, then `(|x|, |y|)`. -/
-structure TgsSpec (x y : List α) (s : List (Nat × Nat)) : Prop where
-  shape : ∃ mid, s = (0, 0) :: mid ++ [(x.length, y.length)] ∧ (∀ p ∈ mid, Anchor x y p) ∧
-    mid.Pairwise (fun p q => p.1 < q.1 ∧ p.2 < q.2)
+/-- `tgs` never panics; its result starts with `(0,0)`, ends with `(|x|,|y|)`, and in between
+lists pairs `(i, j)`, strictly increasing in both coordinates, such that `x[i] = y[j]` and this
+line occurs nowhere else in `x` and nowhere else in `y`.
+(Proved from the invariants of Szymanski's algorithm as coded: `T[k]` is the unfilled marker or
+`J` of the last index of level `k+1`; `sort.Search` returns an index whose left neighbour is
+smaller than `J[i]`; each level-`l` index has, as last earlier level-`l-1` index, one with smaller `J`.) -/
+theorem tgs_ok (x y : List α) : ∃ s mid, tgs x y = some s ∧ s = (0, 0) :: mid ++ [(x.length, y.length)] ∧
+    mid.Pairwise (fun p q => p.1 < q.1 ∧ p.2 < q.2) ∧
+    ∀ p ∈ mid, ∃ a, x[p.1]? = some a ∧ y[p.2]? = some a ∧ (∀ i, x[i]? = some a → i = p.1) ∧ (∀ j, y[j]? = some a → j = p.2) := by
+  obtain ⟨s, h1, ⟨mid, h2, h3, h4⟩⟩ := tgs_spec x y
+  exact ⟨s, mid, h1, h2, h4, h3⟩
 
-theorem TgsSpec.msOK {x y : List α} {s : List (Nat × Nat)} (t : TgsSpec x y s) : MsOK x y s := by
-  obtain ⟨mid, rfl, hanch, hmono⟩ := t.shape
-  have hin : ∀ p ∈ mid, p.1 < x.length ∧ p.2 < y.length := by
-    intro p hp
-    obtain ⟨a, h1, h2, _⟩ := hanch p hp
-    exact ⟨(List.getElem?_eq_some_iff.mp h1).1, (List.getElem?_eq_some_iff.mp h2).1⟩
-  refine ⟨?_, ?_, by simp⟩
-  · intro m hm
-    simp only [List.cons_append, List.mem_cons, List.mem_append, List.mem_nil_iff, or_false] at hm
-    rcases hm with rfl | hm | rfl
-    · exact ⟨Nat.zero_le _, Nat.zero_le _, Or.inr (Or.inl rfl)⟩
-    · have := hin m hm
-      exact ⟨by omega, by omega, Or.inr (Or.inr (hanch m hm))⟩
-    · exact ⟨Nat.le_refl _, Nat.le_refl _, Or.inl rfl⟩
-  · rw [List.cons_append, List.pairwise_cons]
-    refine ⟨fun _ _ => Nat.zero_le _, ?_⟩
-    rw [List.pairwise_append]
-    refine ⟨hmono.imp (fun h => by omega), by simp, ?_⟩
-    intro p hp q hq
-    simp only [List.mem_cons, List.mem_nil_iff, or_false] at hq
-    subst hq
-    have := hin p hp
-    simp only
-    omega
+/- x = [a,b,c,d], y = [c,a,b,d]: the unique common lines give the increasing subsequence a,b,d -/
+example : tgs [1, 2, 3, 4] [3, 1, 2, 4] = some [(0, 0), (0, 1), (1, 2), (3, 3), (4, 4)] := by decide
 
-/-- No panic in the hunk loop, and its hunks form an edit script from `x` to `y`. -/
-theorem diffHunks_script_of_tgs {x y : List α} {s : List (Nat × Nat)} (ht : tgs x y = some s) (hs : TgsSpec x y s) :
-    ∃ hs, diffHunks x y = some hs ∧ Script 0 0 x y hs := by
-  unfold diffHunks
-  rw [ht]
-  exact loop_ok s {} hs.msOK (Inv.init x y s)
+/-- Uniqueness as a count: an anchored line occurs exactly once on each side
+(the form in which the counting loops of `tgs` establish it). -/
+theorem anchor_of_count {x y : List α} {i j : Nat} {a : α} (hx : x[i]? = some a) (hy : y[j]? = some a)
+    (cx : x.count a = 1) (cy : y.count a = 1) : Anchor x y (i, j) :=
+  ⟨a, hx, hy, fun _ h => idx_unique_of_count cx h hx, fun _ h => idx_unique_of_count cy h hy⟩
 
-/-- The printed hunks, applied to `x` by a strict patch applier, give `y`; applied in reverse to `y`, give `x`. -/
-theorem diff_applies_of_tgs {x y : List α} {s : List (Nat × Nat)} (ht : tgs x y = some s) (hs : TgsSpec x y s) :
-    ∃ hs, diffHunks x y = some hs ∧ apply x hs = some y ∧ unapply y hs = some x := by
-  obtain ⟨hs, h1, h2⟩ := diffHunks_script_of_tgs ht hs
-  exact ⟨hs, h1, h2.apply, h2.unapply⟩
+example : Anchor [1, 2, 3] [3, 1] (0, 1) := anchor_of_count (a := 1) rfl rfl (by decide) (by decide)
 
 end
+
+/-! ### the hunks -/
+
+section
+set_option linter.unusedSectionVars false
+variable {α : Type} [DecidableEq α]
+
+/-- From any match sequence with the properties of `tgs_ok` the loop of `Diff` produces, without
+panic, an edit script — the theorem that isolates what the loop needs from `tgs`. -/
+theorem diff_applies_of_tgs {x y : List α} {s : List (Nat × Nat)} (hs : TgsSpec x y s) :
+    ∃ hs, loop x y s {} = some hs ∧ apply x hs = some y ∧ unapply y hs = some x := by
+  obtain ⟨hs, h1, h2⟩ := loop_ok s {} hs.msOK (Inv.init x y s)
+  exact ⟨hs, h1, h2.apply, h2.unapply⟩
+
+example : TgsSpec [1, 2] [2, 1] [(0, 0), (0, 1), (2, 2)] :=
+  ⟨⟨[(0, 1)], rfl, by
+    intro p hp
+    simp only [List.mem_singleton] at hp; subst hp
+    exact anchor_of_count (a := 1) rfl rfl (by decide) (by decide), by simp⟩⟩
+
+/-- The hunks of `Diff` form an edit script from `x` to `y` (no panic on the way). -/
+theorem diffHunks_script (x y : List α) : ∃ hs, diffHunks x y = some hs ∧ Script 0 0 x y hs := by
+  obtain ⟨s, ht, hspec⟩ := tgs_spec x y
+  unfold diffHunks
+  rw [ht]
+  exact loop_ok s {} hspec.msOK (Inv.init x y s)
+
+/-- `diffHunks` never panics: no slice or index out of range, `chunk = end − C ≥ 0`. -/
+theorem diffHunks_ok (x y : List α) : ∃ hs, diffHunks x y = some hs :=
+  let ⟨hs, h, _⟩ := diffHunks_script x y; ⟨hs, h⟩
+
+example : diffHunks [1, 2, 3] [1, 3] = some [⟨1, 3, 1, 2, [(.ctx, 1), (.del, 2), (.ctx, 3)]⟩] := by decide
+
+/-- The printed hunks, applied to `x` by a strict patch applier (positions from the `@@` lines,
+in order, no overlap, context and deleted lines present verbatim, old-side count matching), give
+exactly `y`; applied in reverse to `y` they give exactly `x`. -/
+theorem diff_applies (x y : List α) :
+    ∃ hs, diffHunks x y = some hs ∧ apply x hs = some y ∧ unapply y hs = some x := by
+  obtain ⟨hs, h1, h2⟩ := diffHunks_script x y
+  exact ⟨hs, h1, h2.apply, h2.unapply⟩
+
+example : apply [1, 2, 3] [⟨1, 3, 1, 2, [(.ctx, 1), (.del, 2), (.ctx, 3)]⟩] = some [1, 3] ∧
+    unapply [1, 3] [⟨1, 3, 1, 2, [(.ctx, 1), (.del, 2), (.ctx, 3)]⟩] = some [1, 2, 3] ∧
+    apply [1, 2, 3] [⟨2, 3, 1, 2, [(.ctx, 1), (.del, 2), (.ctx, 3)]⟩] = none := by decide
+
+/-- Well-formedness of the hunk list, in terms of the numbers on the `@@` lines.
+`posX` / `posY` read a start line with the unified-diff convention (1-based; with a count of 0 it
+names the line before the hunk). -/
+structure HunksWF (x y : List α) (hs : List (Hunk α)) : Prop where
+  /-- the counts are the numbers of ` `/`-` lines and of ` `/`+` lines of the body -/
+  counts : ∀ h ∈ hs, h.cx = (oldSide h.body).length ∧ h.cy = (newSide h.body).length
+  /-- start lines follow the convention and the hunk lies inside both files -/
+  inRange : ∀ h ∈ hs, 0 ≤ h.posX ∧ 0 ≤ h.posY ∧ h.posX + (h.cx : Int) ≤ x.length ∧ h.posY + (h.cy : Int) ≤ y.length ∧
+    (h.cx = 0 → h.hx = h.posX) ∧ (h.cx ≠ 0 → h.hx = h.posX + 1) ∧ (h.cy = 0 → h.hy = h.posY) ∧ (h.cy ≠ 0 → h.hy = h.posY + 1)
+  /-- the two sides of the body are literally the lines found at the stated place -/
+  content : ∀ h ∈ hs, oldSide h.body = seg x h.posX.toNat (h.posX.toNat + h.cx) ∧
+    newSide h.body = seg y h.posY.toNat (h.posY.toNat + h.cy)
+  /-- in order and non-overlapping, on both sides -/
+  ordered : hs.Pairwise (fun h₁ h₂ => h₁.posX + (h₁.cx : Int) ≤ h₂.posX ∧ h₁.posY + (h₁.cy : Int) ≤ h₂.posY)
+
+theorem hunks_wellformed (x y : List α) : ∃ hs, diffHunks x y = some hs ∧ HunksWF x y hs := by
+  obtain ⟨hs, h1, h2⟩ := diffHunks_script x y
+  refine ⟨hs, h1, ?_⟩
+  obtain ⟨w1, w2⟩ := h2.wf
+  refine ⟨fun h hm => ⟨(w1 h hm).1, (w1 h hm).2.1⟩, fun h hm => ?_, fun h hm => ?_, w2⟩
+  · obtain ⟨_, _, i, j, p1, p2, _, _, b1, b2, _, _⟩ := w1 h hm
+    refine ⟨by omega, by omega, by omega, by omega, ?_, ?_, ?_, ?_⟩
+    · intro h0; simp [Hunk.posX, h0]
+    · intro h0; simp only [Hunk.posX, if_neg h0]; omega
+    · intro h0; simp [Hunk.posY, h0]
+    · intro h0; simp only [Hunk.posY, if_neg h0]; omega
+  · obtain ⟨_, _, i, j, p1, p2, _, _, _, _, c1, c2⟩ := w1 h hm
+    rw [p1, p2]
+    simpa using ⟨c1, c2⟩
+
+example : HunksWF [1, 2, 3] [1, 3] [⟨1, 3, 1, 2, [(.ctx, 1), (.del, 2), (.ctx, 3)]⟩] := by
+  obtain ⟨hs, h1, h2⟩ := hunks_wellformed [1, 2, 3] [1, 3]
+  have : diffHunks [1, 2, 3] [1, 3] = some [⟨1, 3, 1, 2, [(.ctx, 1), (.del, 2), (.ctx, 3)]⟩] := by decide
+  rw [this] at h1; cases h1; exact h2
+
+end
+
+/-! ### the property, on texts -/
+
+/-- C08 for the model of `diff.Diff`, on byte strings: for different texts `a`, `b` the output is
+the three header lines followed by the rendered hunks `hs`, where `hs` is well-formed against the
+lines of `a` and `b`, and patches `lines a` into `lines b` and back (`lines` is injective and
+encodes a missing final newline, so this determines the texts). -/
+theorem diff_correct (n₁ a n₂ b : Bytes) (h : a ≠ b) :
+    ∃ hs, diff n₁ a n₂ b = some (headerBytes n₁ n₂ ++ (hs.map hunkBytes).flatten) ∧
+      HunksWF (lines a) (lines b) hs ∧
+      apply (lines a) hs = some (lines b) ∧ unapply (lines b) hs = some (lines a) ∧
+      unlines (lines a) = a ∧ unlines (lines b) = b := by
+  obtain ⟨hs, h1, h2⟩ := diffHunks_script (lines a) (lines b)
+  obtain ⟨hs', h1', h3⟩ := hunks_wellformed (lines a) (lines b)
+  rw [h1] at h1'; cases h1'
+  refine ⟨hs, ?_, h3, h2.apply, h2.unapply, unlines_lines a, unlines_lines b⟩
+  rw [diff_output _ _ _ _ h, h1]; rfl
+
+/- "a\nb\n" vs "a\nc": one hunk `@@ -1,2 +1,2 @@`, ` a`, `-b`, `+c` + the missing-newline warning -/
+example : diff [111] [97, 10, 98, 10] [110] [97, 10, 99] =
+    some (headerBytes [111] [110] ++ ([64, 64, 32, 45, 49, 44, 50, 32, 43, 49, 44, 50, 32, 64, 64, 10] ++
+      [32, 97, 10] ++ [45, 98, 10] ++ (43 :: 99 :: noNewline))) := by decide
+
+/-! ### the bytes can be read back -/
+
+/-- The rendering is unambiguous: a count-driven parser (`@@` line, then as many tagged lines as
+the counts say, a `\` line belonging to the line before it) recovers exactly the hunk list from
+the output bytes — even when lines look like diff syntax.  Includes a decimal print/parse round trip. -/
+theorem parsePatch_render (n₁ n₂ : Bytes) (hs : List (Hunk Bytes)) (hok : ∀ h ∈ hs, HunkOK h) :
+    ∀ out, render n₁ n₂ hs = some out → parsePatch n₁ n₂ out = some hs := by
+  intro out h
+  rw [render_eq] at h
+  cases h
+  exact parsePatch_render' n₁ n₂ hs hok
+
+/- a body line that looks like a hunk header, and one that looks like the no-newline marker, as context -/
+example : HunkOK ⟨1, 2, 1, 3, [(.ctx, [64, 64, 32, 45, 49, 32, 43, 49, 32, 64, 64, 10]), (.ins, [43, 10]), (.ctx, noNLMarker)]⟩ := by
+  refine ⟨by decide, by decide, by decide, by decide, ?_⟩
+  intro p hp
+  simp only [List.mem_cons, List.mem_nil_iff, or_false] at hp
+  rcases hp with rfl | rfl | rfl
+  · exact ⟨[64, 64, 32, 45, 49, 32, 43, 49, 32, 64, 64], by decide, Or.inl rfl⟩
+  · exact ⟨[43], by decide, Or.inl rfl⟩
+  · exact ⟨noNLMarker.dropLast, by decide, Or.inl (by decide)⟩
+
+example : parsePatch [111] [110] (headerBytes [111] [110] ++ hunkBytes ⟨1, 1, 1, 2, [(.ctx, [97, 10]), (.ins, 98 :: noNewline)]⟩) =
+    some [⟨1, 1, 1, 2, [(.ctx, [97, 10]), (.ins, 98 :: noNewline)]⟩] := by decide
+
+/-- C08 end to end on the model: for different texts, the output bytes parse back (count-driven)
+to a hunk list that is well-formed and patches `a` into `b` and `b` back into `a`. -/
+theorem diff_roundtrip (n₁ a n₂ b : Bytes) (h : a ≠ b) :
+    ∃ out hs, diff n₁ a n₂ b = some out ∧ parsePatch n₁ n₂ out = some hs ∧ HunksWF (lines a) (lines b) hs ∧
+      (apply (lines a) hs).map unlines = some b ∧ (unapply (lines b) hs).map unlines = some a := by
+  obtain ⟨hs, h1, h2, h3, h4, h5, h6⟩ := diff_correct n₁ a n₂ b h
+  refine ⟨_, hs, h1, parsePatch_render' n₁ n₂ hs ?_, h2, by rw [h3]; simp [h6], by rw [h4]; simp [h5]⟩
+  intro hk hm
+  obtain ⟨c1, c2⟩ := h2.counts hk hm
+  obtain ⟨r1, r2, _, _, r5, r6, r7, r8⟩ := h2.inRange hk hm
+  obtain ⟨t1, t2⟩ := h2.content hk hm
+  refine ⟨?_, ?_, c1, c2, ?_⟩
+  · by_cases h0 : hk.cx = 0
+    · rw [r5 h0]; exact r1
+    · rw [r6 h0]; omega
+  · by_cases h0 : hk.cy = 0
+    · rw [r7 h0]; exact r2
+    · rw [r8 h0]; omega
+  · intro p hp
+    rcases mem_sides hk.body p hp with hs' | hs'
+    · rw [t1] at hs'; exact lines_isLine a _ (mem_seg hs')
+    · rw [t2] at hs'; exact lines_isLine b _ (mem_seg hs')
+
+example : ∃ out hs, diff [111] [97, 10, 98, 10] [110] [97, 10, 99] = some out ∧ parsePatch [111] [110] out = some hs ∧
+    (apply (lines [97, 10, 98, 10]) hs).map unlines = some [97, 10, 99] :=
+  let ⟨out, hs, h1, h2, _, h4, _⟩ := diff_roundtrip [111] [97, 10, 98, 10] [110] [97, 10, 99] (by decide)
+  ⟨out, hs, h1, h2, h4⟩
 
 end GIV.C08
